@@ -300,6 +300,7 @@ type callRec struct {
 	fn      *ssa.Function
 	args    []Value
 	pre     *State // state just before the call
+	post    *State // state just after it returned (kept when the contract uses aftercall)
 	results []Value
 	types   []types.Type
 	n       int
